@@ -1,4 +1,5 @@
 import BSModel.Proofs.Entities
+import BSModel.Proofs.Html5
 import BSModel.Gen.Entities
 /-! # C09 — entity substitution and attribute quoting are reversible for every string
 
@@ -164,11 +165,16 @@ example : substHtmlWith BS.Gen.htmlTable BS.Gen.htmlTable.particlesAmp.reverse [
 The full statement `∀ s, readText T late 0 (substHtml5 T s) = s` (and its attribute twin) is **false** of the code:
 `substitute_html5` escapes an `&` only when `(#\d+|#x[0-9a-fA-F]+|\w+);` follows, and a parser also resolves
 references without the `;`. The four refutations below are decided on the live tables and re-observed on the
-implementation by the check (known findings `C09-html5-*`). Proved: no raw brackets for all strings; the round trip
-for all strings without an ampersand (the whole table-driven part: every named character, multi-code-point entities,
-quotes). Not proved (left to the correspondence, which is exhaustive on the alphabet strings): the round trip for
-strings whose every `&` is either escaped by the first pass or followed by something no parser takes for a reference —
-it needs the fusion of the two passes (`escapeEntities` then the table pass) into one scan. -/
+implementation by the check (known findings `C09-html5-*`). Proved: no raw brackets for all strings; the text round
+trip for every string satisfying the decidable `noBareRefStart` — each `&` is either escaped by the first pass or
+followed by something that is neither an ASCII letter nor `#` (so no parser can take it for the start of a
+reference); the attribute round trip for strings without `&`. Not proved (left to the correspondence, exhaustive on
+the alphabet strings): the exact domain — a bare `&` followed by an *unknown* name without `;` (`&foo bar`) also
+round-trips as text — and the attribute reader under `noBareRefStart`. -/
+
+/-- The live tables satisfy what the html5 round trip needs beyond `TblOK`: `&` is neither `\w` nor `\d`, no alternative
+    contains `&` or starts with a code point of `&amp;`, the reader knows `amp`. -/
+theorem html5OK_live : Html5OK BS.Gen.htmlTable = true := by decide +kernel
 
 /-- No raw `<` or `>` in the output of `substitute_html5`. -/
 theorem html5_no_raw_brackets (T : Tbl) (h : TblOK T = true) (s : PStr) :
@@ -176,14 +182,20 @@ theorem html5_no_raw_brackets (T : Tbl) (h : TblOK T = true) (s : PStr) :
   let ⟨h1, _, h60, h62⟩ := tblOK_plain h
   html_no_raw_gen T T.particles (htmlRep T) h1 h60 h62 _
 
-/-- For every string without an ampersand the output of `substitute_html5` is read back, as text, as the original. -/
-theorem html5_roundtrip_partial (T : Tbl) (h : TblOK T = true) (late : Bool) (s : PStr) (hs : 38 ∉ s) :
-    readText T late 0 (substHtml5 T s) = s := by
-  unfold substHtml5 substHtml5With
-  rw [escapeEntities_noamp T 0 s hs]
-  exact html_text_roundtrip_noamp T late T.particles (htmlRep T) (tblOK_plain h).1 s hs
+/-- `substitute_html5` round-trips as text for every string whose ampersands are either escaped by its first pass or
+    followed by something other than an ASCII letter or `#`. -/
+theorem html5_roundtrip_partial (T : Tbl) (h : TblOK T = true) (h5 : Html5OK T = true) (late : Bool) (s : PStr)
+    (hs : noBareRefStart T s = true) : readText T late 0 (substHtml5 T s) = s :=
+  html5_text_roundtrip_gen T late (tblOK_plain h).1 h5 s hs
 
-/-- The same through quoting and the attribute reader. -/
+example : readText BS.Gen.htmlTable false 0 (substHtml5 BS.Gen.htmlTable (ofS "&lt;<& &&#60;a&;")) = ofS "&lt;<& &&#60;a&;" :=
+  html5_roundtrip_partial _ tblOK_live html5OK_live _ _ (by decide +kernel)
+
+/-- The hypothesis is decidable and excludes exactly the shapes of the refutations below. -/
+example : noBareRefStart BS.Gen.htmlTable (ofS "&lt x") = false ∧ noBareRefStart BS.Gen.htmlTable (ofS "&#x") = false ∧
+    noBareRefStart BS.Gen.htmlTable (ofS "&lt; x") = true := by decide +kernel
+
+/-- For strings without an ampersand: the same through quoting and the attribute reader. -/
 theorem html5_attr_roundtrip_partial (T : Tbl) (h : TblOK T = true) (s : PStr) (hs : 38 ∉ s) :
     readAttr T (quoteAttr (substHtml5 T s)) = some s := by
   have := html_attr_roundtrip_noamp T T.particles (htmlRep T) (tblOK_plain h).1 (tblOK_quot h) s hs
@@ -192,8 +204,8 @@ theorem html5_attr_roundtrip_partial (T : Tbl) (h : TblOK T = true) (s : PStr) (
   rw [escapeEntities_noamp T 0 s hs]
   split <;> simp [this.1, this.2]
 
-example : readText BS.Gen.htmlTable false 0 (substHtml5 BS.Gen.htmlTable [60, 8807, 824, 34, 39]) = [60, 8807, 824, 34, 39] :=
-  html5_roundtrip_partial _ tblOK_live _ _ (by decide)
+example : readAttr BS.Gen.htmlTable (quoteAttr (substHtml5 BS.Gen.htmlTable [60, 8807, 824, 34, 39])) =
+    some [60, 8807, 824, 34, 39] := html5_attr_roundtrip_partial _ tblOK_live _ (by decide)
 
 /-- Refutation 1 (`C09-html5-bare-legacy-ref`): `&lt x` is written unchanged and read back as `< x`, both as text and
     as an attribute value. -/
